@@ -79,6 +79,8 @@ type claimT struct {
 	Batch   bool   `json:"batch,omitempty"`  // a MsgBatchSendToRemoteClaim (batch nonce = amt) instead of a deposit
 	Sale    bool   `json:"sale,omitempty"`   // a MsgLightNodeSaleClaim: client = rcv, amount = amt, tok = names the registered sale contract
 	OtherTk bool   `json:"othertk,omitempty"` // batch claim naming a token contract that has no batches
+	Big     string `json:"big,omitempty"`     // deposit amount as a decimal string (whole math.Int range); overrides amt
+	Case    int    `json:"case,omitempty"`    // letter-case variants of text fields: 1 receiver / client address, 2 compass id, 4 sale contract
 }
 
 type opT struct {
@@ -94,6 +96,28 @@ type opT struct {
 	Status []int   `json:"status,omitempty"` // valset: per validator 0 bonded 1 unbonding 2 unbonded 3 no staking record
 	Jailed []bool  `json:"jailed,omitempty"`
 	BN     uint64  `json:"bn,omitempty"` // dropbatch
+}
+
+func (c *claimT) amount() sdkmath.Int {
+	if c.Big != "" {
+		x, ok := sdkmath.NewIntFromString(c.Big)
+		if !ok {
+			panic("bad amount " + c.Big)
+		}
+		return x
+	}
+	return sdkmath.NewInt(c.Amt)
+}
+
+// flipCase changes the letter case of a text field (what is consumed case-sensitively downstream)
+func flipCase(s string) string {
+	if s == "" {
+		return s
+	}
+	if u := strings.ToUpper(s); u != s {
+		return u[:1] + s[1:len(s)/2] + u[len(s)/2:]
+	}
+	return strings.ToLower(s)
 }
 
 func (c *claimT) typ() string {
@@ -201,6 +225,9 @@ func setup(t *testing.T) *env {
 			b[0], b[1], b[18], b[19] = 0xC1, 0x02, byte(ci), byte(i+1)
 			l = append(l, sdk.AccAddress(b).String())
 		}
+		for i := 0; i < nClients; i++ {
+			l = append(l, flipCase(l[i]))
+		}
 		e.client = append(e.client, l)
 	}
 	for _, addr := range keeper.ValAddrs {
@@ -237,6 +264,10 @@ func (o opT) signer() int {
 func (e *env) mkMsg(ci, v, sg int, c *claimT) types.EthereumClaim {
 	o := e.orch(v)
 	md := func(string) valsettypes.MsgMetadata { cr := e.orch(sg); return valsettypes.MsgMetadata{Creator: cr, Signers: []string{cr}} }
+	cid := compassIDs[c.Compass]
+	if c.Case&2 != 0 {
+		cid = flipCase(cid)
+	}
 	switch {
 	case c.Batch:
 		tk := tokC[ci]
@@ -244,21 +275,32 @@ func (e *env) mkMsg(ci, v, sg int, c *claimT) types.EthereumClaim {
 			tk = tokUnreg
 		}
 		return &types.MsgBatchSendToRemoteClaim{EventNonce: c.Nonce, EthBlockHeight: c.Height, BatchNonce: uint64(c.Amt), TokenContract: tk,
-			ChainReferenceId: chainNames[ci], Orchestrator: o, Metadata: md(o), SkywayNonce: c.Nonce, CompassId: compassIDs[c.Compass]}
+			ChainReferenceId: chainNames[ci], Orchestrator: o, Metadata: md(o), SkywayNonce: c.Nonce, CompassId: cid}
 	case c.Sale:
 		sc := saleWrong
 		if c.Tok {
 			sc = saleC[ci]
+			if c.Case&4 != 0 {
+				sc = strings.ToLower(sc)
+			}
+		}
+		cli := c.Rcv % nClients
+		if c.Case&1 != 0 {
+			cli += nClients // the same address in another letter case: another client downstream
 		}
 		return &types.MsgLightNodeSaleClaim{EventNonce: c.Nonce, EthBlockHeight: c.Height, Orchestrator: o, Metadata: md(o), ChainReferenceId: chainNames[ci],
-			SkywayNonce: c.Nonce, ClientAddress: e.client[ci][c.Rcv%nClients], Amount: sdkmath.NewInt(c.Amt), SmartContractAddress: sc, CompassId: compassIDs[c.Compass]}
+			SkywayNonce: c.Nonce, ClientAddress: e.client[ci][cli], Amount: sdkmath.NewInt(c.Amt), SmartContractAddress: sc, CompassId: cid}
 	}
 	tok := tokUnreg
 	if c.Tok {
 		tok = tokC[ci]
 	}
-	return &types.MsgSendToPalomaClaim{EventNonce: c.Nonce, EthBlockHeight: c.Height, TokenContract: tok, Amount: sdkmath.NewInt(c.Amt), EthereumSender: ethSender,
-		PalomaReceiver: e.rcv[c.Rcv%nRcv].String(), Orchestrator: o, ChainReferenceId: chainNames[ci], Metadata: md(o), SkywayNonce: c.Nonce, CompassId: compassIDs[c.Compass]}
+	rc := e.rcv[c.Rcv%nRcv].String()
+	if c.Case&1 != 0 {
+		rc = flipCase(rc) // mixed case: not a bech32 address, the deposit goes to the community pool
+	}
+	return &types.MsgSendToPalomaClaim{EventNonce: c.Nonce, EthBlockHeight: c.Height, TokenContract: tok, Amount: c.amount(), EthereumSender: ethSender,
+		PalomaReceiver: rc, Orchestrator: o, ChainReferenceId: chainNames[ci], Metadata: md(o), SkywayNonce: c.Nonce, CompassId: cid}
 }
 
 func (e *env) hashOf(ci int, c *claimT) (uint64, []byte) {
@@ -291,7 +333,7 @@ type snap struct {
 	VN      [][2]uint64
 	Bat     [][3]uint64 // token idx (chain idx, 9 = other), batch nonce, timeout — of this chain, ascending nonce
 	Lic     [][2]int64  // client id (10*chain + i), amount — of this chain's clients
-	Bal     []int64     // receivers, all denoms together
+	Bal     []*big.Int  // receivers, all denoms together
 }
 
 func (e *env) observe(ctx sdk.Context, ci int) snap {
@@ -354,9 +396,9 @@ func (e *env) observe(ctx sdk.Context, ci int) snap {
 		}
 	}
 	for _, r := range e.rcv {
-		var sum int64
+		sum := new(big.Int)
 		for _, d := range denomsC {
-			sum += e.in.BankKeeper.GetBalance(ctx, r, d).Amount.Int64()
+			sum.Add(sum, e.in.BankKeeper.GetBalance(ctx, r, d).Amount.BigInt())
 		}
 		s.Bal = append(s.Bal, sum)
 	}
@@ -542,7 +584,14 @@ func (e *env) apply(ctx sdk.Context, o opT) (out applyOut) {
 
 // ---- Coq printers ----
 func coqClaim(ci int, c *claimT, h int) string {
-	kind, rcv, amt, tok := 0, int64(c.Rcv%nRcv), c.Amt, c.Tok
+	kind, rcv, amt, tok := 0, int64(c.Rcv%nRcv), c.amount().BigInt(), c.Tok
+	compass := c.Compass
+	if c.Case&2 != 0 && c.Compass != 0 {
+		compass = 7 // a compass id no deployment has
+	}
+	if c.Case&1 != 0 && !c.Batch && !c.Sale {
+		rcv = 9 // not an address: minted to the community pool, none of the receivers
+	}
 	switch {
 	case c.Batch:
 		kind, rcv, tok = 1, int64(ci), false
@@ -551,9 +600,12 @@ func coqClaim(ci int, c *claimT, h int) string {
 		}
 	case c.Sale:
 		kind, rcv = 2, int64(10*ci+c.Rcv%nClients+1)
-		tok = c.Tok && saleC[ci] != ""
+		if c.Case&1 != 0 {
+			rcv += nClients
+		}
+		tok = c.Tok && saleC[ci] != "" && c.Case&4 == 0
 	}
-	return fmt.Sprintf("(mkClaim %s %d %s %d %d %d %s %s)", emit.ZU(c.Nonce), h, emit.ZU(c.Height), c.Compass, kind, rcv, emit.ZI(amt), emit.Bool(tok))
+	return fmt.Sprintf("(mkClaim %s %d %s %d %d %d %s %s)", emit.ZU(c.Nonce), h, emit.ZU(c.Height), compass, kind, rcv, emit.Z(amt), emit.Bool(tok))
 }
 
 func global(o opT) bool {
@@ -614,7 +666,7 @@ func coqLists(s snap, rank map[uint64]int) lists {
 		vn = append(vn, emit.Pair(emit.ZU(x[0]), emit.ZU(x[1])))
 	}
 	for i, b := range s.Bal {
-		bal = append(bal, emit.Pair(emit.ZI(int64(i)), emit.ZI(b)))
+		bal = append(bal, emit.Pair(emit.ZI(int64(i)), emit.Z(b)))
 	}
 	for _, b := range s.Bat {
 		bat = append(bat, emit.Pair(emit.ZU(b[0]), emit.ZU(b[1])))
@@ -647,13 +699,14 @@ func coqObs(ci int, ok bool, s snap, prev *lists, rank map[uint64]int) (string, 
 // ---- the direct oracle (independent mirror; speaks about the REAL state only) ----
 type oracle struct {
 	voted      map[string]map[int]bool // chain/claim hash -> validators whose vote for it was accepted
+	body       map[string]map[int]string // chain/claim hash -> sender -> the claim body that sender submitted (latest accepted)
 	epoch      [nChains]int
 	seen       map[[3]uint64]bool // (chain, epoch, nonce) that took effect
 	violations int
 }
 
 func newOracle() *oracle {
-	return &oracle{voted: map[string]map[int]bool{}, seen: map[[3]uint64]bool{}}
+	return &oracle{voted: map[string]map[int]bool{}, body: map[string]map[int]string{}, seen: map[[3]uint64]bool{}}
 }
 
 type viol struct{ id, what string }
@@ -697,6 +750,10 @@ func (or *oracle) step(e *env, ctx sdk.Context, run *emit.Run, o opT, ok bool, e
 			or.voted[key(string(h))] = map[int]bool{}
 		}
 		or.voted[key(string(h))][o.signer()] = true // who SENT the message (the harness built and "signed" it)
+		if or.body[key(string(h))] == nil {
+			or.body[key(string(h))] = map[int]string{}
+		}
+		or.body[key(string(h))][o.signer()] = bodyOf(e.mkMsg(o.C, o.V, o.signer(), o.Claim))
 		if o.signer() != o.V {
 			out = append(out, viol{"C02:vote-cast-by-other-account", fmt.Sprintf("chain %d: a %s claim created by account %d naming validator %d as orchestrator was accepted as validator %d's vote", c, o.Claim.typ(), o.signer(), o.V, o.V)})
 		}
@@ -746,7 +803,7 @@ func (or *oracle) step(e *env, ctx sdk.Context, run *emit.Run, o opT, ok bool, e
 				}
 			}
 			for i := range postAll[ci].Bal {
-				if postAll[ci].Bal[i] != preAll[ci].Bal[i] {
+				if postAll[ci].Bal[i].Cmp(preAll[ci].Bal[i]) != 0 {
 					out = append(out, viol{"C02:effect-not-exactly-once", "a genesis round trip changed a receiver balance"})
 				}
 			}
@@ -764,7 +821,10 @@ func (or *oracle) step(e *env, ctx sdk.Context, run *emit.Run, o opT, ok bool, e
 		}
 	}
 	pw, total := e.powers(ctx)
-	expBal := make([]int64, nRcv)
+	expBal := make([]*big.Int, nRcv)
+	for i := range expBal {
+		expBal[i] = new(big.Int)
+	}
 	// batches / licences the newly observed claims must have consumed / created, in nonce order
 	sort.Slice(newly, func(i, j int) bool { return newly[i].Nonce < newly[j].Nonce })
 	bat := map[[2]uint64]uint64{}
@@ -791,6 +851,10 @@ func (or *oracle) step(e *env, ctx sdk.Context, run *emit.Run, o opT, ok bool, e
 				continue
 			}
 			sum += pw[v]
+			// the vote counts for the claim the validator SUBMITTED: its body equals the stored body field by field
+			if sent := or.body[key(a.Hash)][v]; sent != bodyOf(a.Cl) {
+				out = append(out, viol{"C02:counted-vote-for-other-claim", fmt.Sprintf("chain %d nonce %d: validator %d is counted for the stored claim {%s} but submitted {%s}", c, a.Nonce, v, bodyOf(a.Cl), sent)})
+			}
 		}
 		if !gt66(sum, total) {
 			out = append(out, viol{"C02:observed-without-66pct-distinct",
@@ -812,7 +876,7 @@ func (or *oracle) step(e *env, ctx sdk.Context, run *emit.Run, o opT, ok bool, e
 			if strings.EqualFold(m.TokenContract, tokC[c]) {
 				for i, r := range e.rcv {
 					if r.String() == m.PalomaReceiver {
-						expBal[i] += m.Amount.Int64()
+						expBal[i].Add(expBal[i], m.Amount.BigInt())
 					}
 				}
 			}
@@ -901,9 +965,9 @@ func (or *oracle) step(e *env, ctx sdk.Context, run *emit.Run, o opT, ok bool, e
 		}
 	}
 	for i := range post.Bal {
-		if post.Bal[i]-pre.Bal[i] != expBal[i] {
+		if d := new(big.Int).Sub(post.Bal[i], pre.Bal[i]); d.Cmp(expBal[i]) != 0 {
 			out = append(out, viol{"C02:effect-not-exactly-once",
-				fmt.Sprintf("receiver %d balance changed by %d, the claims that took effect in this step pay %d", i, post.Bal[i]-pre.Bal[i], expBal[i])})
+				fmt.Sprintf("receiver %d balance changed by %s, the claims that took effect in this step (observed, registered token, deliverable receiver) pay %s", i, d, expBal[i])})
 		}
 	}
 	if o.Kind == "tally" {
@@ -973,6 +1037,19 @@ func (or *oracle) stall(run *emit.Run, c int, ok bool, errText string, pre, post
 		}
 	}
 	return out
+}
+
+// bodyOf: every field of a claim except who submitted it (orchestrator, metadata), as exact text
+func bodyOf(cl types.EthereumClaim) string {
+	switch m := cl.(type) {
+	case *types.MsgSendToPalomaClaim:
+		return fmt.Sprintf("deposit nonce=%d/%d height=%d token=%q amount=%s sender=%q receiver=%q chain=%q compass=%q", m.EventNonce, m.SkywayNonce, m.EthBlockHeight, m.TokenContract, m.Amount, m.EthereumSender, m.PalomaReceiver, m.ChainReferenceId, m.CompassId)
+	case *types.MsgBatchSendToRemoteClaim:
+		return fmt.Sprintf("batch nonce=%d/%d height=%d batch=%d token=%q chain=%q compass=%q", m.EventNonce, m.SkywayNonce, m.EthBlockHeight, m.BatchNonce, m.TokenContract, m.ChainReferenceId, m.CompassId)
+	case *types.MsgLightNodeSaleClaim:
+		return fmt.Sprintf("sale nonce=%d/%d height=%d client=%q amount=%s contract=%q chain=%q compass=%q", m.EventNonce, m.SkywayNonce, m.EthBlockHeight, m.ClientAddress, m.Amount, m.SmartContractAddress, m.ChainReferenceId, m.CompassId)
+	}
+	return fmt.Sprintf("%T", cl)
 }
 
 func firstLine(s string) string {
@@ -1185,12 +1262,57 @@ type shadow struct {
 	cursor  uint64
 	compass int
 	made    []uint64 // batch nonces built on this chain
+	bigOn   bool              // this chain's deposits carry amounts over the whole math.Int range
+	bigs    map[uint64]string // per event nonce, so that all validators report the same amount
+	used255 *bool
+}
+
+func (sh *shadow) bigFor(r *rand.Rand, n uint64) string {
+	if sh.bigs == nil {
+		sh.bigs = map[uint64]string{}
+	}
+	if sh.used255 == nil {
+		sh.used255 = new(bool)
+	}
+	if _, ok := sh.bigs[n]; !ok {
+		sh.bigs[n] = bigAmount(r, n, sh.used255)
+	}
+	return sh.bigs[n]
+}
+
+var truthKind = 0 // the kind the "case" variant is derived from (set by the caller)
+
+// amounts over the whole math.Int range, boundary biased (2^255 at most once per history: the supply must fit 256 bits)
+func bigAmount(r *rand.Rand, n uint64, used *bool) string {
+	exps := []uint{63, 63, 64, 128, 200}
+	if !*used && r.Intn(3) == 0 {
+		*used = true
+		return new(big.Int).Lsh(big.NewInt(1), 255).String()
+	}
+	x := new(big.Int).Lsh(big.NewInt(1), exps[r.Intn(len(exps))])
+	switch r.Intn(3) {
+	case 0:
+		x.Sub(x, big.NewInt(1))
+	case 1:
+		x.Add(x, big.NewInt(int64(n)))
+	}
+	return x.String()
 }
 
 // claim variants at one nonce: variant 0 is "what happened", the others compete with it.
 func variant(r *rand.Rand, sh *shadow, n uint64, k int) *claimT {
 	c := &claimT{Nonce: n, Height: 100 + 10*n, Tok: true, Amt: int64(1000 + n), Rcv: int(n % nRcv), Compass: sh.compass}
+	if sh.bigOn && (k == 0 || k == 2 || k == 3 || k == 4 || k == 9) {
+		c.Big = sh.bigFor(r, n)
+	}
 	switch k {
+	case 9: // the event with a text field in another letter case (receiver / client, compass id, sale contract)
+		t := variant(r, sh, n, truthKind)
+		t.Case = []int{1, 1, 2, 4, 3}[r.Intn(5)]
+		if t.Case&1 != 0 && !t.Batch && !t.Sale {
+			t.Big = "" // an undeliverable deposit goes to the community pool, whose DecCoins hold 2^255 no more
+		}
+		return t
 	case 1:
 		c.Amt += 777
 		c.Rcv = (c.Rcv + 1) % nRcv
@@ -1244,8 +1366,9 @@ func (e *env) structured(r *rand.Rand, hostile bool) []opT {
 		active = r.Perm(nChains)[:2+r.Intn(2)]
 	}
 	sh := make([]*shadow, nChains)
+	used255 := new(bool)
 	for ci := range sh {
-		sh[ci] = &shadow{next: []uint64{1, 1, 1, 1, 1}}
+		sh[ci] = &shadow{next: []uint64{1, 1, 1, 1, 1}, bigOn: r.Intn(4) == 0, used255: used255}
 	}
 	status := make([]int, nVals)
 	for _, ci := range active {
@@ -1267,8 +1390,9 @@ func (e *env) structured(r *rand.Rand, hostile bool) []opT {
 			v := r.Intn(nVals)
 			nn := s.next[v]
 			k := truth(ci, nn)
+			truthKind = k
 			if r.Intn(100) >= 70 {
-				k = 1 + r.Intn(8)
+				k = 1 + r.Intn(9)
 			}
 			cl := variant(r, s, nn, k)
 			if r.Intn(12) == 0 {
@@ -1348,6 +1472,26 @@ func (e *env) structured(r *rand.Rand, hostile bool) []opT {
 					s.next[w]++
 				}
 				ops = append(ops, vo)
+			}
+			ops = append(ops, opT{Kind: "tally", C: ci})
+		case x < 61:
+			// the same event reported with a text field in another letter case by the FIRST voter, properly by the others
+			nn := s.cursor + 1
+			truthKind = truth(ci, nn)
+			first := true
+			for _, w := range r.Perm(nVals) {
+				if s.next[w] != nn {
+					continue
+				}
+				cl := variant(r, s, nn, truthKind)
+				if first {
+					cl = variant(r, s, nn, 9)
+					first = false
+				}
+				ops = append(ops, opT{Kind: "vote", C: ci, V: w, Claim: cl})
+				if status[w] == 0 {
+					s.next[w]++
+				}
 			}
 			ops = append(ops, opT{Kind: "tally", C: ci})
 		case x < 73:
